@@ -42,6 +42,9 @@ type privObj struct {
 	id   *Term // BV64 identity
 	pub  *pubObj
 	name string
+	// negOf: this key is n - negOf (its public key is the negated point:
+	// same x coordinate, other parity byte)
+	negOf *privObj
 }
 
 type pubObj struct {
@@ -380,8 +383,17 @@ func (ex *Exec) eqPoint(a, b *pubObj) *Term {
 func (ex *Exec) serBytes(p *pubObj) []*Term {
 	p.ser = true
 	out := make([]*Term, 33)
+	id := p.id
+	if p.priv != nil && p.priv.negOf != nil {
+		// -P: the x coordinate (bytes 1..32) is that of P, the parity byte
+		// (0x02 / 0x03) is the other one
+		id = ex.pubOf(p.priv.negOf).id
+	}
 	for i := range out {
-		out[i] = ex.C.UF("ser", BV(8), p.id, ex.i64(int64(i)))
+		out[i] = ex.C.UF("ser", BV(8), id, ex.i64(int64(i)))
+	}
+	if id != p.id {
+		out[0] = ex.C.Bin(OXor, out[0], ex.C.Const(BV(8), 1))
 	}
 	return out
 }
